@@ -197,7 +197,9 @@ class Stubs(object):
 
     def restore(self):
         for mod, name, old, missing in reversed(self.saved):
-            if old is missing:
+            if isinstance(mod, type):
+                setattr(mod, name, old)
+            elif old is missing:
                 mod.__dict__.pop(name, None)
             else:
                 mod.__dict__[name] = old
